@@ -4,6 +4,7 @@ import (
 	"fmt"
 	"os"
 	"sort"
+	"strings"
 
 	"golang.org/x/tools/go/ssa"
 )
@@ -58,7 +59,18 @@ func exploreBounds(repo string) {
 		os.Exit(2)
 	}
 	e := newAliasEngine(c)
-	scope := e.reachable(decodeEntryPoints(c))
+	entries := decodeEntryPoints(c)
+	if extra := os.Getenv("ENTRIES"); extra != "" {
+		entries = nil
+		for _, n := range strings.Split(extra, ",") {
+			if f := c.ssaFunc(n); f != nil {
+				entries = append(entries, f)
+			} else {
+				fmt.Println("no function", n)
+			}
+		}
+	}
+	scope := e.reachable(entries)
 	var fns []*ssa.Function
 	for f := range scope {
 		fns = append(fns, f)
